@@ -119,7 +119,9 @@ CLAIMS = {
             "no ksymtab-based restriction of the interface is applied when the kernel mode option is off; "
             "R-KSYMAPPLY: in symtab::load_ the loop that applies the collected __ksymtab_ names lies on every path to "
             "`return true` (must-pass-through) and every set_is_in_ksymtab(true) is control-dependent on membership in "
-            "the collected set",
+            "the collected set; R-KFILTER: the symtab's default filter demands ksymtab membership exactly for kernel binaries "
+            "and such a filter keeps a symbol iff it is public and in the ksymtab (worlds over is_kernel_binary_ / "
+            "is_in_ksymtab / is_public)",
             "which symbols carry a ksymtab marker (runtime data)",
             "§3 R-KMODE; §4 C28"),
     "C05": ("constant evaluation of the category masks + categoriser tables (AST) and exit-status abstract "
